@@ -336,3 +336,48 @@ Proof.
   destruct (pt_neg_formula A OA) as [ON _].
   now destruct (pt_add_formula _ _ (pt_mul_ok k _ ON) (pt_mul_ok S _ ed_base_ok)).
 Qed.
+
+(** the model's verifier refuses, before any curve arithmetic, every signature of the wrong length, with one of the
+    three top bits of S set, with a non-canonical S, or under a key that does not decode; and every signature the
+    model's signer produces has length 64 and a canonical S *)
+From PatVerif Require Import Proofs.Ed25519P.
+Open Scope Z_scope.
+
+Theorem edm_verify_refuses pk msg sig :
+  length sig <> 64%nat \/ N.land (b2n (nth 63 sig x00)) 224 <> 0%N \/ is_reduced (skipn 32 sig) = false \/ pt_set_bytes pk = None ->
+  edm_verify pk msg sig = false.
+Proof.
+  unfold edm_verify. intros [H | [H | [H | H]]].
+  - apply Nat.eqb_neq in H. now rewrite H.
+  - destruct (Nat.eqb (length sig) 64); [|reflexivity]. cbn [negb]. apply N.eqb_neq in H. now rewrite H.
+  - destruct (Nat.eqb (length sig) 64); [|reflexivity]. cbn [negb].
+    destruct (N.eqb (N.land (b2n (nth 63 sig x00)) 224) 0); [|reflexivity]. cbn [negb].
+    destruct (pt_set_bytes pk); [|reflexivity]. now rewrite H.
+  - destruct (Nat.eqb (length sig) 64); [|reflexivity]. cbn [negb].
+    destruct (N.eqb (N.land (b2n (nth 63 sig x00)) 224) 0); [|reflexivity]. cbn [negb]. now rewrite H.
+Qed.
+
+Lemma fe_bytes_length v : length (fe_bytes v) = 32%nat.
+Proof. unfold fe_bytes. rewrite !or_at_length. apply repeat_length. Qed.
+
+Lemma pt_bytes_length v : length (pt_bytes v) = 32%nat.
+Proof.
+  unfold pt_bytes, set_top_bit. rewrite app_length, firstn_length, fe_bytes_length. reflexivity.
+Qed.
+
+Theorem edm_sign_canonical seed msg :
+  length (edm_sign seed msg) = 64%nat /\ is_reduced (skipn 32 (edm_sign seed msg)) = true.
+Proof.
+  unfold edm_sign, ed_signature. cbv zeta.
+  set (R := pt_bytes _). assert (HR : length R = 32%nat) by apply pt_bytes_length.
+  split.
+  - rewrite app_length, HR, le_bytes_length. reflexivity.
+  - rewrite skipn_app, HR. replace (32 - 32)%nat with 0%nat by reflexivity.
+    rewrite skipn_all2 by (rewrite HR; apply le_n). cbn [app skipn].
+    apply is_reduced_spec_l; [apply le_bytes_length|].
+    rewrite le_val_le_bytes. unfold ed_S.
+    assert (HL : (L < 256 ^ N.of_nat 32)%N) by (unfold L, order_ed25519; vm_compute; reflexivity).
+    assert (HLpos : (0 < L)%N) by (unfold L, order_ed25519; reflexivity).
+    rewrite N.mod_small; [apply N.mod_lt; lia|].
+    eapply N.lt_trans; [apply N.mod_lt; lia | exact HL].
+Qed.
